@@ -611,7 +611,7 @@ func (g *gen) control(t typ, d int) (node, bool) {
 				es = append(es, g.test(d))
 			}
 			es = append(es, g.expr(t, d-1))
-			if g.r.Chance(10) {
+			if t == tAny && g.r.Chance(10) { // (and) is t: not a list
 				return node{"(and)", "(EAnd [])"}, true
 			}
 			return node{lisp("and", joinL(es)), "(EAnd " + listG(es) + ")"}, true
@@ -1274,6 +1274,10 @@ func (g *gen) typed(t typ, d int) node {
 			if g.errs {
 				g.h("type-error")
 				a := g.expr(tInt, d-1)
+				if g.r.Chance(35) { // a dotted list is not a sequence (repo_fixes/C01-20)
+					b := g.expr(tInt, d-1)
+					return node{lisp("length", lisp("cons", a.L, b.L)), fmt.Sprintf("(EPrim PLength [EPrim PCons [%s; %s]])", a.G, b.G)}
+				}
 				return node{lisp("car", a.L), fmt.Sprintf("(EPrim PCar [%s])", a.G)}
 			}
 		case x < 75:
